@@ -10,6 +10,7 @@
  "models": ["models/libc_string.c"],
  "instrument_flags": ["--nondet-static-exclude", "numchars"],
  "cbmc": ["--object-bits", "10"],
+ "backend": "kissat",
  "native": true,
  "timeout": 300,
  "assumptions": ["static table numchars keeps its initialiser (not const in the source, but no function under contract has it in its assigns clause); DFCC would otherwise start it nondeterministic",
